@@ -13,17 +13,32 @@ package ipam
 //@ ghost c20Reserved bool
 //@ ghost c20AffOK bool
 //@ func (*allocationBlock).autoAssign
-//@   property C20
+//@   property C20, C19
 //@   option safety off
-//@   option stable (*model.AllocationBlock).Affinity, (*allocationBlock).AllocationBlock
-//@   requires b != nil && b.AllocationBlock != nil && !c20AffOK && num >= 0
+//@   option absindex
+//@   option mathint
+//@   option stable (*model.AllocationBlock).Affinity, (*allocationBlock).AllocationBlock, (*model.AllocationBlock).Allocations, (*model.AllocationBlock).Unallocated, []int, []*int
+//@   requires blkWF(b) && !c20AffOK && num >= 0
 //@   ghost at call affinityMatches: c20AffOK = res
 //@   ghost at call OrdinalToIP: c20Ord = arg1
 //@   ghost at call MatchesIP: c20Reserved = res
 //@   ghost at call findOrAddAttribute: check !affinityCheck || (b.AllocationBlock.Affinity != nil && c20AffOK)
 //@   ghost at call SetSequenceNumberForOrdinal: check arg1 == c20Ord && !c20Reserved ; check !affinityCheck || (b.AllocationBlock.Affinity != nil && c20AffOK)
 //@   ensures res1 == nil ==> len(res0) <= num
-//@   loop 1 invariant len(ips) <= num
+//@   ensures b.AllocationBlock != nil
+//@   ensures forall i int :: 0 <= i && i < len(blkU(b)) ==> 0 <= blkU(b)[i] && blkU(b)[i] < len(blkA(b))
+//@   ensures forall i int :: 0 <= i && i < len(blkU(b)) ==> blkA(b)[blkU(b)[i]] == nil
+//@   ensures forall i int, j int :: 0 <= i && i < j && j < len(blkU(b)) ==> blkU(b)[i] != blkU(b)[j]
+//@   ensures len(blkA(b)) == old(len(blkA(b)))
+//@   ensures forall j int :: 0 <= j && j < len(blkA(b)) && old(blkA(b)[j]) != nil ==> blkA(b)[j] == old(blkA(b)[j])
+//@   loop 1 invariant len(ips) <= num && -1 <= rangeindex && rangeindex < len(blkU(b))
+//@   loop 1 invariant updatedUnallocated[0:0] == blkU(b)[0:0] && 0 <= len(updatedUnallocated) && len(updatedUnallocated) <= rangeindex + 1
+//@   loop 1 invariant forall i int :: rangeindex < i && i < len(blkU(b)) ==> blkU(b)[i] == old(blkU(b)[i])
+//@   loop 1 invariant forall i int :: rangeindex < i && i < len(blkU(b)) ==> blkA(b)[old(blkU(b)[i])] == nil
+//@   loop 1 invariant forall p int :: 0 <= p && p < len(updatedUnallocated) ==> 0 <= updatedUnallocated[p] && updatedUnallocated[p] < len(blkA(b)) && blkA(b)[updatedUnallocated[p]] == nil
+//@   loop 1 invariant forall p int, i int :: 0 <= p && p < len(updatedUnallocated) && rangeindex < i && i < len(blkU(b)) ==> updatedUnallocated[p] != old(blkU(b)[i])
+//@   loop 1 invariant forall p int, q int :: 0 <= p && p < q && q < len(updatedUnallocated) ==> updatedUnallocated[p] != updatedUnallocated[q]
+//@   loop 1 invariant len(blkA(b)) == old(len(blkA(b))) && (forall j int :: 0 <= j && j < len(blkA(b)) && old(blkA(b)[j]) != nil ==> blkA(b)[j] == old(blkA(b)[j]))
 
 //@ -- The reservation filter is built once per request and consulted for every block the request examines:
 //@ -- consulting it must not change it (or anything else allocated before the call).
